@@ -28,3 +28,30 @@ for d in sorted(glob.glob("/tmp/seeded_out/C*/m*")):
         meta["confirmed"] = json.load(open(conf))
     json.dump(meta, open(os.path.join(dst, "meta.json"), "w"), indent=1)
     print(dst, meta.get("detected_by"))
+
+# index
+rows = []
+for d in sorted(glob.glob("/verif/seeded/C*-m*")):
+    try:
+        meta = json.load(open(os.path.join(d, "meta.json")))
+    except Exception:
+        continue
+    name = os.path.basename(d)
+    runs = meta.get("checks_run", {})
+    ids = []
+    for k, v in runs.items():
+        if v.get("exit") == 1:
+            ids += [f"{k}: {i}" for i in v.get("identities", [])[:3]]
+    conf = meta.get("confirmed", {})
+    what = meta.get("summary") or meta.get("title") or meta.get("description") or meta.get("what") or ""
+    if isinstance(what, (list, dict)):
+        what = json.dumps(what)
+    rows.append((name, str(what).replace("\n", " ")[:160], ", ".join(meta.get("detected_by", [])) or "-",
+                 "; ".join(ids)[:300], f"{conf.get('stable_tests_passing', '?')}/{conf.get('stable_tests_total', '?')}"))
+with open("/verif/seeded/INDEX.md", "w") as f:
+    f.write("# Seeded breaking changes\n\nEach directory holds `patch.diff` (applies to /repo at the recorded HEAD; never committed there), the sub-agent's demonstration, and `meta.json` "
+            "(property, what the change needs to manifest, `checks_run`: the checks I ran against it in a scratch worktree with their exit codes and reported identities, "
+            "`confirmed`: build and pinned-test result of the patched tree).\n\n| seed | change | detected by | first identities reported | stable tests passing |\n|---|---|---|---|---|\n")
+    for r in rows:
+        f.write("| " + " | ".join(x.replace("|", "/") for x in r) + " |\n")
+print("index written", len(rows))
